@@ -42,6 +42,7 @@ fn main() {
         "cross.ext.pg" => cross::run_ext_pg(seed, thorough),
         "cross.repro" => cross::run_repro(seed, thorough, args.iter().any(|a| a == "--warmup")),
         "hunt" => hunt::run(seed, thorough),
+        "rerun" => focus::rerun(args.get(2).map(|s| s.as_str()).unwrap_or("")),
         "focus" => focus::run(args.get(2).map(|s| s.as_str()).unwrap_or(""), seed, thorough),
         "e2e.table" => e2e::run_table(seed, thorough, if thorough { 20000 } else { 1200 }),
         _ => {
